@@ -10,8 +10,8 @@ from vlib.targets import Boom, norm_exc
 PROPERTY = 'C03'
 EVALUATIONS_KEYS = ['programs', 'incremental_runs']
 LEVEL = 'exploration'
-RULE = ('(a) exhaustive: every well-formed operator sequence of length <=2 (quick) / <=3 (thorough) over 35 parameter-instantiated operators x 5 input '
-        'classes (empty, singleton, ints, ints+exception objects, nested lists), consumed by iteration / collect / drain; (b) seeded random programs '
+RULE = ('(a) exhaustive: every well-formed operator sequence of length <=2 (quick) / <=3 (thorough) over 35 parameter-instantiated operators x 7 input '
+        'classes (empty, singleton, ints, ints+exception objects, nested lists, None/falsy elements ending in None, nested lists of None), consumed by iteration / collect / drain; (b) seeded random programs '
         'of length <=7 on lists up to 40; (c) one-to-one chains on an instrumented unbounded source: 0 pulls at construction, pulls <= k + sum of '
         'look-ahead after taking k outputs. non-trivial = program of >=2 operators whose reference output is non-empty or ends in an exception; '
         'distinct = distinct (program, input); (d) stalled consumption: consumer or source silent for 0.12-2.2 s while buffers / look-ahead windows are full')
@@ -31,6 +31,9 @@ def inputs():
         'ints': ('S', [0, 1, 2, 3, 4]),
         'mixed': ('S', [1, ('exc', 'Boom', ('e', 1)), 2, ('exc', 'ValueError', ('v',)), ('exc', 'KeyError', ('k',)), 3]),
         'nested': ('L', [[1, 2], [3], [], [4, 5, 6], [7]]),
+        # values an implementation might mistake for "nothing": None and other falsy elements, None last
+        'falsy': ('S', [None, 0, '', False, 0.0, (), None]),
+        'nested-falsy': ('L', [[None], [], [0, None], [None]]),
     }
 
 
